@@ -1,7 +1,7 @@
 (** C12 -- reducing named dimensions equals the axis reduction, in memory and on file. *)
 From Coq Require Import List Arith Lia Bool ZArith.
 Require Import V.Base.ListAux V.Base.Radix V.Base.Matrix V.Base.NdArray V.Usid.SortOrder V.Usid.ToND V.Usid.ToNDProof V.Usid.FromND
-               V.Usid.Grid V.Usid.SelEnum V.Usid.Reduce V.Usid.ReduceProof.
+               V.Usid.Grid V.Usid.SelEnum V.Usid.Reduce V.Usid.ReduceProof V.Usid.ReduceGrid V.Usid.ReduceFile.
 Import ListNotations.
 
 (** The value at a kept index is the reduction of exactly the elements of the fibre over it ... *)
@@ -76,6 +76,55 @@ Theorem C12_kept_columns_coordinates :
     if is_ax red (nth p so 0) then 0 else nth p (digits lens j) 0.
 Proof. exact reduced_cols_coordinates. Qed.
 Print Assumptions C12_kept_columns_coordinates.
+
+(** write_reduced_anc_dsets on a grid matrix: the columns it keeps (matrix level, as the code computes them) are the ones
+    the digit-level theorems above talk about ... *)
+Theorem C12_kept_columns_matrix_level :
+  forall sz so red, wf_grid sz so -> length sz <= prod (radices sz so) -> 0 < length sz -> Forall (fun d => d < length sz) red ->
+  reduced_cols (grid_spec sz so) red = reduced_cols_digits sz so red.
+Proof. exact reduced_cols_grid. Qed.
+Print Assumptions C12_kept_columns_matrix_level.
+
+(** ... and the reduced ancillary matrix is again the matrix of a regular grid: the kept dimensions (file order) with their
+    original sizes, in the same relative storage order. *)
+Theorem C12_reduced_ancillaries_are_a_grid :
+  forall sz so red, wf_grid sz so -> length sz <= prod (radices sz so) -> 0 < length sz ->
+  Forall (fun d => d < length sz) red -> kept (length sz) red <> [] ->
+  write_reduced (grid_spec sz so) red = (grid_spec (red_sz sz red) (red_so sz so red), kept (length sz) red) /\
+  wf_grid (red_sz sz red) (red_so sz so red).
+Proof. intros sz so red H1 H2 H3 H4 H5. split; [now apply write_reduced_grid|now apply wf']. Qed.
+Print Assumptions C12_reduced_ancillaries_are_a_grid.
+
+(** Written back, on grid datasets in ANY storage order, ANY non-empty subset of dimension names that leaves at least one
+    dimension on either side (and not more dimensions than points after the reduction): the call succeeds, the written
+    matrix has prod(kept position sizes) x prod(kept spectroscopic sizes) elements, and its element (r, c) is the value of
+    the reduced N-D array at the coordinates carried by row r / column c of the NEW ancillary matrices -- which by
+    C12_reduction_is_fibrewise is f of exactly the source elements sharing those remaining coordinates. *)
+Theorem C12_written_back_coordinates :
+  forall (szp sop szs sos : list nat) (main : list (list Z)) (pos : list (list nat)) (dims : list nat) (f : redfn),
+  wf_grid szp sop -> wf_grid szs sos ->
+  length szp <= prod (radices szp sop) -> length szs <= prod (radices szs sos) -> 0 < length szp -> 0 < length szs ->
+  length main = prod (radices szp sop) -> rect main (prod (radices szs sos)) ->
+  transpose2d 0 pos = grid_spec szp sop -> ncols pos = length szp ->
+  Forall (fun dm => dm < length szp + length szs) dims ->
+  let kp := length szp in
+  let pred := filter (fun dm => Nat.ltb dm kp) dims in
+  let sred := map (fun dm => dm - kp) (filter (fun dm => negb (Nat.ltb dm kp)) dims) in
+  let szp' := red_sz szp pred in let sop' := red_so szp sop pred in
+  let szs' := red_sz szs sred in let sos' := red_so szs sos sred in
+  kept (length szp) pred <> [] -> kept (length szs) sred <> [] ->
+  length szp' <= prod (radices szp' sop') -> length szs' <= prod (radices szs' sos') ->
+  let N' := prod (radices szp' sop') in let M' := prod (radices szs' sos') in
+  exists a data pside sside,
+    to_nd 0%Z main pos (grid_spec szs sos) false = Ok (a, seq 0 (length szp + length szs)) /\ nd_shape a = szp ++ szs /\
+    reduce_mem main pos (grid_spec szs sos) dims f = Ok (nd_reduce 0%Z (apply_fn f) a dims) /\
+    reduce_file main pos (grid_spec szs sos) dims f = Ok (N', M', data, pside, sside) /\ length data = N' * M' /\
+    forall r c, r < N' -> c < M' ->
+      nth (r * M' + c) data 0%Z
+      = nd_get 0%Z (nd_reduce 0%Z (apply_fn f) a dims)
+               (pos_row (transpose2d 0 (grid_spec szp' sop')) (length szp') r ++ spec_col (grid_spec szs' sos') (length szs') c).
+Proof. intros. apply reduce_file_coordinates; assumption. Qed.
+Print Assumptions C12_written_back_coordinates.
 
 (** With fewer than two axes left the call raises rather than writing a dataset that is not a Main dataset. *)
 Theorem C12_raises_when_fewer_than_two_axes_remain :
